@@ -952,10 +952,14 @@ func (g *Graph) PathAvoiding(from []*Node, to NodePred, avoid NodePred) []*Node 
 				continue
 			}
 			if to != nil && to(s) {
-				prev[s] = n
-				var path []*Node
-				for x := s; x != nil; x = prev[x] {
+				// walk back to the seed the search started from; the target may itself be a
+				// seed (a cycle through a loop header), so it is not given a predecessor
+				path := []*Node{s}
+				for x := n; x != nil && len(path) <= len(g.Nodes)+1; x = prev[x] {
 					path = append(path, x)
+					if isSeed[x] {
+						break
+					}
 				}
 				for i, j := 0, len(path)-1; i < j; i, j = i+1, j-1 {
 					path[i], path[j] = path[j], path[i]
@@ -1045,10 +1049,49 @@ func (g *Graph) ExitClass(n *Node) retClass {
 // SuccessExits: root returns that are not definitely error returns.
 func (g *Graph) SuccessExits() NodePred {
 	set := map[*Node]bool{}
-	for _, x := range g.Exits {
-		if g.ExitClass(x) != rcA {
-			set[x] = true
+	live := g.Live()
+	// a return that hands on the results of an inlined helper ("return decode(b)") is a success
+	// or an error return depending on the helper's return that was taken: the helper's own
+	// non-error returns stand for it
+	var add func(x *Node, k int, depth int)
+	add = func(x *Node, k int, depth int) {
+		ret, ok := x.In.(*ssa.Return)
+		if !ok {
+			return
 		}
+		if classifyReturn(ret, k) == rcA {
+			return
+		}
+		if k >= 0 && k < len(ret.Results) && depth < 4 {
+			v := spilledResult(ret, k)
+			var call *ssa.Call
+			idx := 0
+			switch y := v.(type) {
+			case *ssa.Extract:
+				call, _ = y.Tuple.(*ssa.Call)
+				idx = y.Index
+			case *ssa.Call:
+				call = y
+			}
+			if call != nil {
+				var rets []*Node
+				for _, n := range g.Nodes {
+					if _, isRet := n.In.(*ssa.Return); isRet && n.Kind == NInstr && live[n] && n.Ctx != nil && n.Ctx.Parent == x.Ctx && n.Ctx.Site != nil && n.Ctx.Site == ssa.CallInstruction(call) {
+						rets = append(rets, n)
+					}
+				}
+				if len(rets) > 0 {
+					for _, r := range rets {
+						add(r, idx, depth+1)
+					}
+					return
+				}
+			}
+		}
+		set[x] = true
+	}
+	for _, x := range g.Exits {
+		add(x, corrResult(g.Root), 0)
 	}
 	return func(n *Node) bool { return set[n] }
 }
